@@ -550,10 +550,44 @@ def execute(program, ctx, mode):
     flaky_world = h64(program.get('seed') or 0, 'flaky-world') % 3 == 0
     VClass = FlakyV if flaky_world else VerifyingAdapterRegistry
 
-    def mkregs():
-        return [(AdapterRegistry if RD[r]['flav'] == 'A' else VClass)() for r in range(nR)]
+    # Fault `cb-reenter` at the registry level (one world in three): some push registries are instances of a subclass whose
+    # changed() -- the notification a registry above sends down -- looks a few keys up in the registry itself, right there
+    # (a change listener that refreshes something derived).  Whatever it caches at that moment must be gone, or right, once the
+    # operation that caused the notification is over: the ordinary probes judge that.  Cold twins are plain registries.
+    spy_reg_world = h64(program.get('seed') or 0, 'listening-registries') % 3 == 0
+    spy_armed = [False]
+
+    class SpyA(AdapterRegistry):
+        def changed(self, originally_changed):
+            AdapterRegistry.changed(self, originally_changed)
+            if not spy_armed[0]:
+                return
+            spy_armed[0] = False            # (no lookups from inside the lookups' own notifications)
+            try:
+                ctx.fault('cb-reenter-lookup-in-registry-notification')
+                for key in W['keypool'][:3]:
+                    try:
+                        specs = key_specs(key)
+                    except Exception:       # noqa: a key whose component is being re-declared right now
+                        continue
+                    pr = PP(key['p'] % nP) if key['p'] % (nP + 1) < nP else Interface
+                    self.lookup(specs, pr, NAMES[key['n'] % 3])
+                    self.lookupAll(specs, pr)
+                    self.subscriptions(specs, pr)
+            finally:
+                spy_armed[0] = True
+
+    def mkregs(plain=False):
+        out = []
+        for r in range(nR):
+            if RD[r]['flav'] == 'A':
+                out.append((SpyA if (spy_reg_world and not plain and r % 2 == 1) else AdapterRegistry)())
+            else:
+                out.append(VClass())
+        return out
 
     regs = mkregs()
+    spy_armed[0] = spy_reg_world
     rb = {r: [] for r in range(nR)}
     alive = [True] * nR
     mutlog = []         # replayable registry mutations (real objects inside)
@@ -592,7 +626,7 @@ def execute(program, ctx, mode):
         mutlog.append(m)
 
     def twin():
-        t = mkregs()
+        t = mkregs(plain=True)
         for m in mutlog:
             apply(t, m)
         ctx.probe('cold-twin')
